@@ -92,11 +92,41 @@ func (env *evalEnv) resolveType(name string) (string, types.Type) {
 	if strings.HasPrefix(name, "(Array") {
 		return name, nil
 	}
+	if obj := types.Universe.Lookup(name); obj != nil {
+		if tn, ok := obj.(*types.TypeName); ok {
+			return env.fx.sortOf(tn.Type()), tn.Type()
+		}
+	}
+	if strings.HasPrefix(name, "map[") {
+		depth := 0
+		for i := 3; i < len(name); i++ {
+			if name[i] == '[' {
+				depth++
+			} else if name[i] == ']' {
+				depth--
+				if depth == 0 {
+					_, kt := env.resolveType(name[4:i])
+					_, vt := env.resolveType(name[i+1:])
+					if kt == nil || vt == nil {
+						evalFail("cannot resolve map type %q", name)
+					}
+					return "Int", types.NewMap(kt, vt)
+				}
+			}
+		}
+	}
 	ptr := false
 	n := name
 	if strings.HasPrefix(n, "*") {
 		ptr = true
 		n = n[1:]
+		if strings.HasPrefix(n, "*") {
+			_, inner := env.resolveType(n)
+			if inner == nil {
+				evalFail("cannot resolve %q", name)
+			}
+			return "Int", types.NewPointer(inner)
+		}
 	}
 	if strings.HasPrefix(n, "[]") {
 		_, et := env.resolveType(n[2:])
@@ -196,7 +226,8 @@ func (env *evalEnv) eval(e Expr) cval {
 		var ranges []string
 		for _, v := range x.Vars {
 			srt, typ := env.resolveType(v.Type)
-			name := "q." + v.Name
+			fx.fresh++
+			name := fmt.Sprintf("q.%s.%d", v.Name, fx.fresh)
 			vars[v.Name] = cval{t: name, sort: srt, typ: typ}
 			binders = append(binders, fmt.Sprintf("(%s %s)", name, srt))
 			if typ != nil {
